@@ -384,6 +384,17 @@ def run_wrap(ctx):
     for _ in range(ctx.n(15000, 150000)):
         (lP, rP) = gen_phys(rng); (lL, rL), sc = gen_log_scale(rng); v, vc = gen_log_value(rng, lL, rL)
         cases.append(('log', lP, rP, lL, rL, rng.choice(list(BACKUPS)), v, sc, vc))
+    # several transforms with IDENTICAL scale edges on DIFFERENT tracks evaluated on IDENTICAL values, back to back
+    # (a result must depend on the physical track edges too)
+    tracks = [(0.0, 2.4), (3.2, 5.6), (5.6, 8.0), (3.2, 8.0), (0.0, 1.2), (0.25, 0.75)]
+    for _ in range(ctx.n(400, 4000)):
+        if rng.random() < 0.6:
+            (lL, rL), sc = gen_lin_scale(rng); v, vc = gen_value(rng, lL, rL); k = 'lin'
+        else:
+            (lL, rL), sc = gen_log_scale(rng); v, vc = gen_log_value(rng, lL, rL); k = 'log'
+        bu = rng.choice(list(BACKUPS))
+        for (lP, rP) in rng.sample(tracks, 3):
+            cases.append((k, lP, rP, lL, rL, bu, v, sc, 'same-scale-' + vc))
     cases = [c for c in cases if float_ok(*c[1:5], c[6])]
     have_model = getattr(ctx, 'model_available', True)
     replies = ctx.lean([wrap_request(k, lP, rP, lL, rL, v) for (k, lP, rP, lL, rL, bu, v, sc, vc) in cases]) if have_model else [None] * len(cases)
